@@ -804,6 +804,37 @@ Proof.
   - intros k i'. rewrite (den_csr_to_csc F zero add P k i' HP). apply IP.
 Qed.
 
+(* the same with the two exchanges abstract: any `fetch` that delivers the owners' rows of P to the ranks that need
+   them, any `fetchT` that hands the owners, up to order, the partial-product rows computed elsewhere *)
+Theorem par_galerkin_fetch_exact_on_integers fetch fetchT (A P : csr F) (pa pc : list nat) i j :
+  csr_wf A -> csr_wf P -> csr_nc A = csr_nr P -> csr_nr A = csr_nr P ->
+  psum pa = csr_nr A -> psum pc = csr_nc P -> length pc = length pa -> i < csr_nc P ->
+  (forall i k, isint (denCsr A i k)) -> (forall k j, isint (denCsr P k j)) ->
+  (forall r k, needs F A pa pa r k = true -> fetch r k = owner_row F P pa pc k) ->
+  let AP := par_mult F zero add mul smallm small fetch A P pa pa pc in
+  (forall r i, inblk pc r i = true ->
+     Permutation (fetchT r i) (sentT F zero add mul smallm small (csr_to_csc P) AP pa pc pc r i)) ->
+  denCsr (par_mult_T F zero add mul smallm small fetchT (csr_to_csc P) AP pa pc pc) i j =
+  sumF (map (fun k => denCsr P k i * prod_entry F zero add mul A P k j) (seq 0 (csr_nr P))).
+Proof.
+  intros HA HP Hc Hn Hpa Hpc Hl Hi IA IP Hf AP HfT.
+  assert (WAP : csr_wf AP) by (apply par_mult_wf; assumption).
+  assert (WPc : csc_wf (csr_to_csc P)) by (apply csr_to_csc_wf; exact HP).
+  assert (EAP : forall k j', k < csr_nr A -> denCsr AP k j' = prod_entry F zero add mul A P k j').
+  { intros k j' Hk. unfold AP. apply par_mult_exact_on_integers; assumption. }
+  assert (IAP : forall k j', isint (denCsr AP k j')).
+  { intros k j'. destruct (Nat.lt_ge_cases k (csr_nr A)) as [Hk|Hk].
+    - rewrite EAP by exact Hk. apply isint_sum. intros l. apply isint_mul; [apply IA|apply IP].
+    - rewrite (den_csr_overflow AP k j' WAP) by exact Hk. exact isint_0. }
+  rewrite par_mult_T_exact_on_integers; try assumption.
+  - unfold prod_T_entry. change (csc_nr (csr_to_csc P)) with (csr_nr P).
+    apply (sumf_map_ext F zero add). intros k Hk. apply in_seq in Hk.
+    rewrite (den_csr_to_csc F zero add P k i HP). rewrite EAP by lia. reflexivity.
+  - change (csc_nr (csr_to_csc P)) with (csr_nr P). symmetry. exact Hn.
+  - change (csc_nr (csr_to_csc P)) with (csr_nr P). lia.
+  - intros k i'. rewrite (den_csr_to_csc F zero add P k i' HP). apply IP.
+Qed.
+
 End Exact.
 
 End ParProofs.
